@@ -175,7 +175,18 @@ def check_arm(cx, rep, f, where, g, cls, inst, trait):
         else:
             rep.ok('PARAM', '%s|%s|conversion=%s' % (where, inst, cls))
     # P3 reset
-    if g.reset_flag is None or g.flag_set is None or g.reset_flag != g.flag_set:
+    # ... or, for a value kept in an `Option` that starts as `None` and is only ever set to `Some(..)`: `value.is_some()`
+    opt_form = False
+    if g.reset_flag is not None and g.flag_set is None and g.reset_flag.endswith('.is_some()'):
+        v_ = g.reset_flag[:-len('.is_some()')]
+        sets_v = [x for x in g.sets if x[0] == v_]
+        d_ = sets_v[0][2].scope.lookup(v_) if sets_v else None
+        opt_form = bool(sets_v) and d_ is not None and d_.kind == 'let' and d_.init is not None and es(d_.init) == 'None' \
+            and all(x[1]['k'] == 'Call' and x[1]['func']['k'] == 'Path' and x[1]['func']['path']['s'] == 'Some' for x in sets_v) \
+            and all(es(a.value).startswith('Some(') for a in d_.assigns)
+    if opt_form:
+        rep.ok('PARAM', '%s|%s|reset-flag=%s' % (where, inst, g.reset_flag))
+    elif g.reset_flag is None or g.flag_set is None or g.reset_flag != g.flag_set:
         rep.bad('PARAM', where, inst + '-reset', 'giving `%s` twice is not rejected with parameter_reset through its own *_is_set flag (tested `%s`, set `%s`)' % (g.names[0], g.reset_flag, g.flag_set),
                 f.file, g.line)
     else:
